@@ -16,6 +16,7 @@ Clauses(ev) ==
                              ELSE V(ev.hasUnknown, "UnknownDetected") \cup UnknownViol(ev.f, ev.g, {ev.U[k] : k \in 1..Len(ev.U)})
                                   \cup Tag(WellFormedViol(ev.g, TRUE), "g")
       [] ev.e = "enum" -> EnumViol(ev)
+      [] ev.e = "twobuild" -> TwoBuildViol(ev)
       [] ev.e = "crash" -> {"NoCrash"}
       [] OTHER -> {}
 Init == l = 1
